@@ -34,6 +34,26 @@ theorem forLoop_congr_fun {f g : σ → α → Py.Step σ ρ} (h : ∀ s x, f s 
   have : f = g := funext fun s => funext fun x => h s x
   rw [this]
 
+/-- a generator that yields every element: `for x in xs: yield x` -/
+@[simp] theorem foldl_append_singleton (xs acc : List α) :
+    xs.foldl (fun s x => s ++ [x]) acc = acc ++ xs := by
+  induction xs generalizing acc with
+  | nil => simp
+  | cons x xs ih => simp [ih]
+
+/-- the form `simp` gives the previous fold -/
+@[simp] theorem flatten_map_singleton (xs : List α) : (xs.map (fun x => [x])).flatten = xs := by
+  induction xs with
+  | nil => rfl
+  | cons x xs ih => simp [ih]
+
+/-- a generator that yields the image of every element: `for x in xs: yield g(x)` -/
+theorem foldl_append_map (g : α → β) (xs : List α) (acc : List β) :
+    xs.foldl (fun s x => s ++ [g x]) acc = acc ++ xs.map g := by
+  induction xs generalizing acc with
+  | nil => simp
+  | cons x xs ih => simp [ih]
+
 /-- a search loop: `for x in xs: if c(x): return r(x)` with no state -/
 theorem forLoop_find (f : Unit → α → Py.Step Unit ρ) (c : α → Bool) (r : α → ρ)
     (hf : ∀ x, f () x = if c x then .ret (r x) else .next ()) (xs : List α) :
